@@ -100,6 +100,58 @@ let parse_obs (line : string) : string * (string * string) list =
   | [] -> failwith "obs"
 let get kvs k = try L.assoc k kvs with Not_found -> failwith ("missing key " ^ k)
 
+
+(* ---------- rope programs ---------- *)
+let rec parse_rprog (toks : string list) : RopeProg.rprog * string list =
+  match toks with
+  | "new" :: r -> (RopeProg.PNew, r)
+  | "from" :: h :: r -> (RopeProg.PFrom (text_of_hex h), r)
+  | "iter" :: n :: r ->
+    let rec go k r acc = if k = 0 then (L.rev acc, r) else
+        match r with h :: r' -> go (k - 1) r' (text_of_hex h :: acc) | [] -> failwith "iter" in
+    let (ts, r') = go (int_of_string n) r [] in (RopeProg.PFromIter ts, r')
+  | "add" :: r -> let (p, r1) = parse_rprog r in
+    (match r1 with h :: r2 -> (RopeProg.PAdd (p, text_of_hex h), r2) | [] -> failwith "add")
+  | "app" :: r -> let (p, r1) = parse_rprog r in let (q, r2) = parse_rprog r1 in (RopeProg.PAppend (p, q), r2)
+  | "slice" :: r -> let (p, r1) = parse_rprog r in
+    (match r1 with a :: b :: r2 -> (RopeProg.PSlice (p, n_of_string a, n_of_string b), r2) | _ -> failwith "slice")
+  | "line" :: r -> let (p, r1) = parse_rprog r in
+    (match r1 with tr :: k :: r2 -> (RopeProg.PLine (p, tr = "1", n_of_string k), r2) | _ -> failwith "line")
+  | k :: _ -> failwith ("rope op " ^ k)
+  | [] -> failwith "rope prog"
+
+let list_str f l = if l = [] then "_" else S.concat "," (L.map f l)
+let b01 b = if b then "1" else "0"
+let split_list (s : string) : string list = if s = "_" then [] else S.split_on_char ',' s
+
+let print_rope_obs (o : ChkRope.rope_obs) (sw : bool) (eq : bool option) (eqs : bool) : string =
+  let open ChkRope in
+  Printf.sprintf "ok=1 len=%s empty=%s str=%s bytes=%s gb=%s ci=%s lines=%s nt=%s sl=%s ew=%s hash=%s sw=%s eq=%s eqs=%s"
+    (string_of_n o.ro_len) (b01 o.ro_is_empty) (hex_of_text o.ro_string) (hex_of_text o.ro_bytes)
+    (list_str string_of_optn o.ro_get_byte)
+    (list_str (fun (i, c) -> string_of_n i ^ ":" ^ string_of_n c) o.ro_char_indices)
+    (list_str hex_of_text o.ro_lines) (list_str hex_of_text o.ro_lines_nt)
+    (S.concat ";" (L.map (fun ((a, b), g) -> Printf.sprintf "%s:%s:%s" (string_of_n a) (string_of_n b) (opt_hex g)) o.ro_slices))
+    (list_str (fun (c, b) -> hex_of_text c ^ ":" ^ b01 b) o.ro_ends_with)
+    (list_str hex_of_text o.ro_hash)
+    (b01 sw) (match eq with Some b -> b01 b | None -> "panic") (b01 eqs)
+
+let parse_rope_obs kvs : ChkRope.rope_obs =
+  let open ChkRope in
+  { ro_len = n_of_string (get kvs "len"); ro_is_empty = (get kvs "empty" = "1");
+    ro_string = text_of_hex (get kvs "str"); ro_bytes = text_of_hex (get kvs "bytes");
+    ro_get_byte = L.map optn_of_string (split_list (get kvs "gb"));
+    ro_char_indices = L.map (fun x -> match S.split_on_char ':' x with
+        | [i; c] -> (n_of_string i, n_of_string c) | _ -> failwith "ci") (split_list (get kvs "ci"));
+    ro_lines = L.map text_of_hex (split_list (get kvs "lines"));
+    ro_lines_nt = L.map text_of_hex (split_list (get kvs "nt"));
+    ro_slices = L.map (fun x -> match S.split_on_char ':' x with
+        | [a; b; g] -> ((n_of_string a, n_of_string b), opt_of_hex g) | _ -> failwith "sl")
+        (S.split_on_char ';' (get kvs "sl"));
+    ro_ends_with = L.map (fun x -> match S.split_on_char ':' x with
+        | [c; b] -> (text_of_hex c, b = "1") | _ -> failwith "ew") (split_list (get kvs "ew"));
+    ro_hash = L.map text_of_hex (split_list (get kvs "hash")) }
+
 (* ---------- per-kind handlers ---------- *)
 let model_case (toks : string list) : string =
   match toks with
@@ -111,6 +163,12 @@ let model_case (toks : string list) : string =
       (string_of_mlist ldec)
   | "codec_dec" :: h :: _ ->
     Printf.sprintf "dec=%s" (string_of_mlist (ApiCodec.api_codec_dec (text_of_hex h)))
+  | "rope" :: rest ->
+    let (p, r1) = parse_rprog rest in
+    let (q, _) = parse_rprog r1 in
+    (match ApiRope.api_rope p q with
+     | None -> "ok=0"
+     | Some ((o, ((sw, eq), eqs)), wf) -> print_rope_obs o sw eq eqs ^ (if wf then "" else " WF=0"))
   | k :: _ -> failwith ("unknown case kind " ^ k)
   | [] -> failwith "empty case"
 
@@ -122,7 +180,9 @@ let verdict (n : coq_N) : string =
   | k -> Printf.sprintf "FAIL clause=%d" k
 
 let check_case (toks : string list) (kvs : (string * string) list) : string =
-  if L.mem_assoc "PANIC" kvs then "FAIL clause=panic" else
+  if L.mem_assoc "PANIC" kvs then "FAIL clause=panic"
+  else if L.mem_assoc "ABORT" kvs then "FAIL clause=abort"
+  else if L.mem_assoc "HANG" kvs then "FAIL clause=hang" else
   match toks with
   | "codec_enc" :: n :: rest ->
     let (ms, _) = take_mappings (int_of_string n) rest [] in
@@ -131,6 +191,16 @@ let check_case (toks : string list) (kvs : (string * string) list) : string =
                (mlist_of_string (get kvs "ldec")))
   | "codec_dec" :: h :: _ ->
     verdict (ChkCodec.chk_C12_dec (text_of_hex h) (mlist_of_string (get kvs "dec")))
+  | "rope" :: rest ->
+    let (p, r1) = parse_rprog rest in
+    let (q, _) = parse_rprog r1 in
+    if get kvs "ok" = "0" then
+      (* the implementation rejected a slice / line index: the string semantics must too *)
+      (if ApiRope.api_rope_valid p q then "FAIL clause=rejects-valid-program" else "OK")
+    else if not (ApiRope.api_rope_valid p q) then "FAIL clause=accepts-invalid-program"
+    else
+      verdict (ApiRope.api_rope_check p q (parse_rope_obs kvs) (get kvs "sw" = "1") (get kvs "eq" = "1")
+                 (get kvs "eqs" = "1"))
   | k :: _ -> failwith ("unknown case kind " ^ k)
   | [] -> failwith "empty case"
 
